@@ -94,6 +94,6 @@ Fixpoint mismatches_from (i : N) (cs : list case) : list (N * N) :=
   end.
 Definition mismatches (cs : list case) : list (N * N) := mismatches_from 0 cs.
 (* re-export so that building Runner.vo builds the persistence runner too *)
-Require RopeVerif.C12.PersistRunner.
+(* PersistRunner imports this file; it is built as a separate target by the harness *)
 Definition count_wf (cs : list case) : N :=
   N.of_nat (length (filter (fun c => wf_py (c_val c)) cs)).
